@@ -35,7 +35,7 @@ pub fn prop() -> Prop {
             Tier::Quick => 30,
             Tier::Thorough => 300,
         },
-        required_probes: &["dkg_completed", "own_id_smallest", "own_id_largest", "ids_derived", "ids_scalar", "ids_u16ext", "t_eq_n", "crash_during_dkg", "signed_after_dkg", "taproot_dkg"],
+        required_probes: &["dkg_completed", "own_id_smallest", "own_id_largest", "ids_derived", "ids_scalar", "ids_u16ext", "t_eq_n", "crash_during_dkg", "signed_after_dkg", "taproot_dkg", "t_ge_17"],
         prepare: None,
     }
 }
@@ -57,7 +57,12 @@ fn gen_c<C: Suite>(seed: u64, run: u64, tier: Tier) -> Scenario {
         (Tier::Thorough, false, true) => 8,
         (Tier::Thorough, false, false) => 10,
     };
-    let (n, t) = gen_nt(&mut p, 2, max_n);
+    let (mut n, mut t) = gen_nt(&mut p, 2, max_n);
+    // now and then a key generation with threshold above 16 (windowed / batched verification paths); costs ~1 s
+    if C::COST <= 2 && p.chance(1, if tier == Tier::Quick { 70 } else { 50 }) {
+        n = p.range(17, 20) as u16;
+        t = p.range(17, n as u64) as u16;
+    }
     s.n = n;
     s.t = t;
     s.id_scheme = (*p.pick(&ID_SCHEMES)).to_string();
@@ -253,6 +258,9 @@ fn exec_c<C: Suite>(scen: &Scenario) -> Exec {
     }
     if scen.t == scen.n {
         rep.probe("t_eq_n");
+    }
+    if scen.t >= 17 {
+        rep.probe("t_ge_17");
     }
     rep.probe(&format!("ids_{}", scen.id_scheme));
     if sim.stats.restarts > 0 {
